@@ -136,6 +136,19 @@ func H16Text() {
 		addFixed('E', 2, 0)
 		t.Cell("", LeftMargin(" | "))
 		add('F', 2, 2, 1, false, false)
+	case 3: // the rule column gets its width from the rule cells alone: the middle line has nothing there
+		t.Row()
+		add('A', 0, 0, 1, false, false)
+		t.Cell("", LeftMargin(" | "))
+		add('B', 0, 2, 1, true, false)
+		t.Row()
+		addFixed('C', 1, 0)
+		t.Col(2)
+		add('D', 1, 2, 1, true, false)
+		t.Row()
+		addFixed('E', 2, 0)
+		t.Cell("", LeftMargin(" | "))
+		add('F', 2, 2, 1, true, false)
 	}
 	var buf bytes.Buffer
 	if err := t.Format(&buf); err != nil {
